@@ -46,7 +46,7 @@ func Harness_C16_combine() {
 
 // C16 ConflatedContext with 2 inputs (+ explicit cancel).
 func Harness_C16_conflated() {
-	verifDaemon("ConflatedContext$") // its waiter goroutine legitimately stays parked while an input is live
+	verifDaemon("ConflatedContext$*") // its waiter goroutine legitimately stays parked while an input is live
 	base := context.WithValue(context.Background(), verifCtxKey(1), vtok(41))
 	a, ac := context.WithCancel(base)
 	b, bc := context.WithCancel(context.WithValue(context.Background(), verifCtxKey(2), vtok(42)))
